@@ -260,13 +260,22 @@ def orc_c11(case, obs):
         if t[0] in ("ENCAP", "EEXT"):
             pdu, ctx = tok_bytes(t[1]), None
             if e.ok and e.status == "F":
-                p = parse_packet(e.pkt, KNOWN_EXT_FIXED)
-                if isinstance(p, str) or p.kind != "F":
-                    continue
+                if t[0] == "EEXT":
+                    # the extension area is known from the call (the parser cannot size unknown mandatory extensions)
+                    chain = c13_parse_exts(t[7])
+                    area = sum(2 + len(x) for _, x in chain) - (2 if int(t[3]) < 0x100 else 0)
+                    if (e.pkt[0] >> 6) != 2 or len(e.pkt) < 7 + LT_LEN[(e.pkt[0] >> 4) & 3] + area:
+                        continue
+                    payload = e.pkt[7 + LT_LEN[(e.pkt[0] >> 4) & 3] + area:]
+                else:
+                    p = parse_packet(e.pkt, KNOWN_EXT_FIXED)
+                    if isinstance(p, str) or p.kind != "F":
+                        continue
+                    payload = p.payload
                 fid, crc, ln = e.ctx
-                if ln != len(p.payload):
-                    bad.append("first fragment carries %d payload bytes, context says %d" % (len(p.payload), ln))
-                if p.payload != pdu[:len(p.payload)]:
+                if ln != len(payload):
+                    bad.append("first fragment carries %d payload bytes, context says %d" % (len(payload), ln))
+                if payload != pdu[:len(payload)]:
                     bad.append("first fragment payload is not the PDU prefix")
                 if fid != int(t[2]):
                     bad.append("context frag id %d != %s" % (fid, t[2]))
@@ -328,14 +337,14 @@ def gen_c11(rng, t):
             elif mode == 1:
                 c.add("EFRAGC %d 1" % rng.choice([4, 5, 6, 7, 8, 13]))
             elif mode == 2:
-                c.add("EFRAGC %d 1" % rng.choice([0, 2, 3, 4, 9, 20, 100, 4097, 4098, 6000]))
+                c.add("EFRAGC %d 1" % rng.choice([0, 2, 3, 4, 9, 20, 100, 4097, 4098, 6000, 65539, 65540]))
             else:
                 c.add("EFRAGC %d 1" % rng.range(7, 40))
         out.append(c)
     return out
 
 
-prop("C11", ["c11_first_ctx", "c11_first_ctx_ext", "c11_step", "c11_partition", "c11_bound", "c11_useless_rejected"], ["ENC"], gen_c11, [orc_c11])
+prop("C11", ["c11_first_ctx", "c11_first_ctx_ext", "c11_step", "c11_partition", "c11_bound", "c11_useless_rejected"], ["ENC", "ENCX"], gen_c11, [orc_c11])
 
 
 # ------------------------------------------------------------------------------------------------
@@ -1120,7 +1129,7 @@ def gen_c19(rng, t):
         c.add("ENEW", "DNEW 2 64 %s" % MGR_ALL, "DPROV 64", "DPROV 65", "DPROV 66")
         for _ in range(rng.range(1, 6)):
             r = rng.below(10)
-            lab = rng.choice([L6A, L6A, L3A, "B", "R", L6B])
+            lab = rng.choice([L6A, L6A, L3A, "B", "R", L6B, L3Z, L6N])
             pl = rng.range(0, 60)
             if r < 5:
                 c.add("ENCAP %s %d %d %s %d 1" % (pdu_tok(rng, pl), rng.below(256), rng.choice([2048, 0xFFFF]), lab, rng.choice([100, rng.range(7, 40)])))
@@ -1163,6 +1172,8 @@ def orc_c19(case, obs):
                 w, d = kv(nxt)
                 if w[:1] == ["ok"] and p.lt != 3 and d.get("label") not in (None, p.label):
                     bad.append("peek label %s, decap label %s" % (p.label, d.get("label")))
+                if w[:2] == ["err", "InvalidLabel"] and p.lt != 3 and not ob.startswith("err"):
+                    bad.append("peek returns %s for a packet the encapsulator produced, decap refuses the label (%s)" % (ob, nxt[:60]))
             last = None
     return bad
 
